@@ -192,7 +192,11 @@ theorem stmtPhase1_upsert (sc : Schema) (cfg : Cfg) (t : Table) (args : Args)
       (∀ r, keyOf sc (g r) = keyOf sc r) ∧ (∀ r, keyOf sc r ∉ K → g r = r) ∧
       (∀ x ∈ ins, keyOf sc x ∈ K) ∧
       keys = ((t.filter fun r => K.contains (keyOf sc r)).map g ++ ins).map (keyOf sc) := by
-  simp only [stmtPhase1, apply, Except.ok.injEq, Prod.mk.injEq] at h
+  have hany : (assign.any fun a => sc.pk.contains a.1) = false := by
+    cases hb : (assign.any fun a => sc.pk.contains a.1) with
+    | false => rfl
+    | true => simp only [stmtPhase1] at h; rw [if_pos hb] at h; cases h
+  simp only [stmtPhase1, hany, Bool.false_eq_true, if_false, apply, Except.ok.injEq, Prod.mk.injEq] at h
   obtain ⟨rfl, _, rfl⟩ := h
   generalize rows.map (fun es => es.map (evalE [] args)) = news
   obtain ⟨g, ins, h1, h2, h3, h4, _⟩ := upsert_fold sc assign ha news t
